@@ -207,17 +207,55 @@ def main(argv):
             for s in range(ns):
                 tasks.append((mod.__name__, p.name, s, ns, total // ns + (1 if s < total % ns else 0), seed, tier,
                               pid))
-    import multiprocessing as mp
-    ctx = mp.get_context('fork')
-    results = []
-    if jobs == 1:
-        results = [_worker(t) for t in tasks]
-    else:
-        # longest tasks first is unknown; interleave parts so that all parts progress together
-        with ctx.Pool(min(jobs, len(tasks))) as pool:
-            for r in pool.imap_unordered(_worker, tasks, chunksize=1):
-                results.append(r)
+    results = run_tasks(tasks, jobs)
     return finish(mod, pid, tier, seed, parts, results, time.time() - t0)
+
+
+def _child(conn, task):
+    try:
+        out = _worker(task)
+    except BaseException as e:  # noqa: BLE001
+        out = {'part': task[1], 'shard': task[2], 'violations': [], 'rec': Rec().export(), 'wall': 0.0,
+               'error': ''.join(traceback.format_exception(type(e), e, e.__traceback__))}
+    try:
+        conn.send(out)
+    finally:
+        conn.close()
+
+
+def run_tasks(tasks, jobs):
+    """One fresh process per task, always forked from the MAIN thread of this process.
+
+    (multiprocessing.Pool forks replacement workers from a helper thread; numpy's floating-point error state is
+    context-local, so such workers would lose the error handling the library installs at import time.)  Every task
+    therefore starts from the parent's post-import state: library imported, nothing parsed, nothing graded."""
+    import multiprocessing as mp
+    from multiprocessing.connection import wait
+    if jobs == 1 and len(tasks) == 1:
+        return [_worker(tasks[0])]
+    ctx = mp.get_context('fork')
+    pending = list(tasks)
+    running = {}
+    results = []
+    while pending or running:
+        while pending and len(running) < jobs:
+            t = pending.pop(0)
+            rd, wr = ctx.Pipe(duplex=False)
+            p = ctx.Process(target=_child, args=(wr, t))
+            p.start()
+            wr.close()
+            running[rd] = (p, t)
+        for c in wait(list(running)):
+            p, t = running.pop(c)
+            try:
+                r = c.recv()
+            except (EOFError, OSError):
+                r = {'part': t[1], 'shard': t[2], 'violations': [], 'rec': Rec().export(), 'wall': 0.0,
+                     'error': 'worker for part %s shard %d died without a result' % (t[1], t[2])}
+            c.close()
+            p.join()
+            results.append(r)
+    return results
 
 
 def finish(mod, pid, tier, seed, parts, results, wall):
